@@ -630,6 +630,46 @@ def rule_r6(ck, prog, rule='C09.R6'):
                'the unsigned right index can be decremented before the left edge is known to stop it: for an all-whitespace input it wraps below zero and str[right] reads out of bounds')
 
 
+def rule_r9_id_blocks(ck, prog, rule='C09.R9', classes=('trace::TraceId', 'trace::SpanId')):
+    """every block operation on the representation of a trace / span id (memcmp, memcpy, memset, memmove) covers the whole array:
+    the length argument folds to the static extent of rep_ - a validity or equality test over a part of the id treats ids that
+    differ (or are non-zero) only in the remaining bytes as equal (or invalid)"""
+    import re as _re
+    from ..inteval import ieval
+    from ..expr import reaching_defs as _rd
+    cnt = 0
+    for cls in classes:
+        rec = prog.record(cls)
+        ext = None
+        for fd in rec['fields']:
+            m = _re.search(r'\[(\d+)\]$', fd['t'])
+            if m:
+                ext = (fd['name'], int(m.group(1)))
+        if ext is None:
+            raise AnalysisBroken('%s: representation array not found' % cls)
+        for f in sorted([x for x in prog.funcs.values() if x.cls == rec['qn'] and x.blocks], key=lambda x: x.key):
+            g = None
+            for n in f.nodes:
+                if n['k'] != 'call' or strip_targs(n.get('c', '') or '').rsplit('::', 1)[-1] not in ('memcmp', 'memcpy', 'memset', 'memmove') or len(n.get('args', [])) != 3:
+                    continue
+                touches = any(f.nodes[i]['k'] == 'member' and f.nodes[i].get('name') == ext[0] for a in n['args'][:2] if a is not None and a >= 0 for i in list(f.subtree(a)) + [a])
+                if not touches:
+                    continue
+                if g is None:
+                    g = Graph(prog, f, inline=None, sync_lambdas=False)
+                    rdx = _rd(g)
+                v = ieval(g, rdx, f, n['args'][2], g.root_ctx, {})
+                cnt += 1
+                site = 'whole-id:%s::%s:%s' % (cls.rsplit('::', 1)[-1], f.name if f.kind != 'ctor' else 'ctor', strip_targs(n['c']).rsplit('::', 1)[-1])
+                if v is None:
+                    ck.inconclusive(rule, f, site, n, 'length argument does not fold')
+                else:
+                    ck.verdict(v == ext[1], rule, f, site, n, 'covers all %d bytes' % ext[1] if v == ext[1] else
+                               '%s of %s::%s covers %s of the %d bytes of the id: ids that differ from the other operand only in the remaining bytes are treated as equal to it (an id with %d leading zero bytes is "invalid")' %
+                               (strip_targs(n['c']).rsplit('::', 1)[-1], cls.rsplit('::', 1)[-1], f.name, v, ext[1], v if isinstance(v, int) else 0))
+    return cnt
+
+
 def run(ck, prog):
     ck.doc('C09.R1', 'InjectImpl: constant-bounded writes partition the 55-byte buffer; literal bytes; view size', 3)
     ck.doc('C09.R2', 'writer digit tables are lower-case hex in all three siblings; reader table exact over 256 entries', 4)
@@ -655,6 +695,8 @@ def run(ck, prog):
     n7 = rule_r7(ck, prog)
     if not n7:
         ck.holds('C09.R7', prog.function('trace::propagation::HttpTraceContext::Extract'), 'no-static-locals', None, 'no function-local statics in the analysed API functions')
+    ck.doc('C09.R9', 'every memcmp/memcpy on the representation of a trace / span id covers the whole array (validity, equality, copies)', 2)
+    rule_r9_id_blocks(ck, prog)
     from . import c16
     ck.doc('C16.R5', '(shared rule, see C16) HttpTraceContext is a function of (carrier, given context): no thread state, Extract only installs into / returns its context parameter', 4)
     c16.rule_r5_purity(ck, prog, classes=('trace::propagation::HttpTraceContext',))
